@@ -570,6 +570,91 @@ async fn c36_content_filtered_topic(ctx: Ctx) {
     }
 }
 
+// ---- C19 (writer side) ---------------------------------------------------------------------------------------------
+/// every sequence of register / write / lookup on 3 keys against a writer with max_instances = 2, max_samples = 3,
+/// max_samples_per_instance = 2 (no reader: nothing is ever acknowledged away), compared with a plain reference model:
+/// an operation that would exceed a limit returns OutOfResources and changes nothing (added after seeded change C19-2)
+async fn c19_writer_limits(ctx: Ctx, keep_last: Option<u32>, depth: usize) {
+    let f = ctx.factory("", None);
+    let p = f.create_participant(0, QosKind::Default, NO_LISTENER, NO_STATUS).await.expect("participant");
+    let t = p.create_topic::<KeyedData>("T", "T", QosKind::Default, NO_LISTENER, NO_STATUS).await.expect("topic");
+    let publ = p.create_publisher(QosKind::Default, NO_LISTENER, NO_STATUS).await.expect("publisher");
+    let mut wq = reliable_w(match keep_last { Some(d) => HistoryQosPolicyKind::KeepLast(d), None => HistoryQosPolicyKind::KeepAll }, Some(50));
+    wq.resource_limits.max_instances = Length::Limited(2);
+    wq.resource_limits.max_samples = Length::Limited(3);
+    wq.resource_limits.max_samples_per_instance = Length::Limited(2);
+    let w = publ.create_datawriter::<KeyedData>(&t, QosKind::Specific(wq), NO_LISTENER, NO_STATUS).await.expect("writer");
+    // reference: registered keys (in order) and stored samples per key
+    let mut registered: Vec<u8> = vec![];
+    let mut stored: std::collections::BTreeMap<u8, u32> = Default::default();
+    let mut hist: Vec<String> = vec![];
+    for step in 0..depth {
+        let c = ctx.choose(b'O', 9);
+        let (op, k) = (c / 3, (c % 3) as u8 + 1);
+        let d = sample(k, step as u32, 4);
+        let name = ["register", "write", "lookup"][op];
+        hist.push(format!("{name}({k})"));
+        let total: u32 = stored.values().sum();
+        match op {
+            0 => {
+                let exp_ok = registered.contains(&k) || registered.len() < 2;
+                let got = w.register_instance(d).await;
+                match (&got, exp_ok) {
+                    (Ok(Some(_)), true) => {
+                        if !registered.contains(&k) {
+                            registered.push(k);
+                        }
+                    }
+                    (Err(DdsError::OutOfResources), false) => {}
+                    _ => {
+                        ctx.violation(format!("writer-limits/register/expected={}/got={}", if exp_ok { "Ok" } else { "OutOfResources" }, short(&got.map(|_| ()))), format!("history {hist:?} (max_instances 2, registered {registered:?})"));
+                        return;
+                    }
+                }
+            }
+            1 => {
+                let need_instance = !registered.contains(&k);
+                let n_k = *stored.get(&k).unwrap_or(&0);
+                let replace = matches!(keep_last, Some(dd) if n_k == dd);
+                let exp_ok = !(need_instance && registered.len() >= 2) && (replace || (n_k < 2 && total < 3));
+                let got = w.write(d, None).await;
+                match (&got, exp_ok) {
+                    (Ok(()), true) => {
+                        if need_instance {
+                            registered.push(k);
+                        }
+                        if !replace {
+                            *stored.entry(k).or_insert(0) += 1;
+                        }
+                    }
+                    (Err(DdsError::OutOfResources), false) => {}
+                    _ => {
+                        ctx.violation(format!("writer-limits/write/expected={}/got={}", if exp_ok { "Ok" } else { "OutOfResources" }, short(&got)), format!("history {hist:?} (limits 2 instances, 3 samples, 2 per instance; registered {registered:?}, stored {stored:?})"));
+                        return;
+                    }
+                }
+            }
+            _ => {
+                let got = w.lookup_instance(d).await;
+                let exp = registered.contains(&k);
+                match &got {
+                    Ok(h) if h.is_some() == exp => {}
+                    _ => {
+                        ctx.violation(format!("writer-limits/lookup/expected-registered={exp}"), format!("history {hist:?}: lookup_instance returned {:?} (a refused operation must store nothing)", got.map(|h| h.is_some())));
+                        return;
+                    }
+                }
+            }
+        }
+    }
+}
+fn short(r: &DdsResult<()>) -> String {
+    match r {
+        Ok(()) => "Ok".into(),
+        Err(e) => format!("{e:?}").split('(').next().unwrap_or("").to_string(),
+    }
+}
+
 // ---- C27 -----------------------------------------------------------------------------------------------------------
 /// two reliable readers, the acknowledgements of one of them are lost: a KEEP_LAST(1) write of the same instance must not
 /// complete (and must not evict the unacknowledged sample) before that reader has acknowledged
@@ -676,6 +761,7 @@ async fn c33_writer_chain(ctx: Ctx) {
 }
 
 pub fn extra(id: &str) -> Vec<Scenario> {
+    let thorough = std::env::args().any(|a| a == "thorough");
     let mut v: Vec<Scenario> = vec![];
     let mut add = |name: String, s: Scenario| {
         let _ = name;
@@ -708,6 +794,12 @@ pub fn extra(id: &str) -> Vec<Scenario> {
             add("wchain".into(), Scenario::new("C33.audit[writer-side-chain]".to_string(), 99, c33_writer_chain));
             for rs in [true, false] {
                 add("unmatch".into(), Scenario::new(format!("C33.audit[unmatch,reader_side={rs}]"), 0, move |ctx| c33_unmatch(ctx, rs)));
+            }
+        }
+        "C19" => {
+            for (kl, n) in [(None, "keep-all"), (Some(1u32), "keep-last-1"), (Some(2), "keep-last-2")] {
+                let depth = if thorough { 6 } else { 5 };
+                add(n.into(), Scenario::new(format!("C19.writer-limits[{n},depth={depth}]"), 99, move |ctx| c19_writer_limits(ctx, kl, depth)).cfg(|c| c.keep_logs = false));
             }
         }
         "C36" => add("cft".into(), Scenario::new("C36.audit[content-filtered-topic]".to_string(), 0, c36_content_filtered_topic)),
